@@ -643,8 +643,8 @@ func c15Run(in string, scratch string) Result {
 			return Result{Out: "PARSE-ERROR", Oracle: "-", Tags: []string{"malformed"}}
 		}
 	}
-	if base == "sql" && !c15HasCodec(layers) && emptyPut {
-		tags["kf:C15-sql-empty-part-not-found"] = true
+	if emptyPut {
+		tags["empty-part"] = true
 	}
 	oracle := "OK"
 	if len(fails) > 0 {
@@ -786,7 +786,7 @@ func (c15) Gen(r *Rng, tier string, n int) []string {
 		var ops []string
 		type put struct{ kind, seed, n int }
 		live := map[int]put{}
-		forceDrain := base == "sql" && hasOutbox && !c15HasCodec(layers)
+		forceDrain := false
 		for len(ops) < nops {
 			id := r.Intn(3)
 			switch c := r.Intn(20); {
